@@ -424,6 +424,8 @@ class Polyhedron(Shape3D):
 
     @volume.setter
     def volume(self, value):
+        if not value > 0:
+            raise ValueError("Volume must be greater than zero.")
         scale = (value / self.volume) ** (1 / 3)
         self._rescale(scale)
 
@@ -677,6 +679,8 @@ class Polyhedron(Shape3D):
 
     @circumsphere_radius.setter
     def circumsphere_radius(self, value):
+        if not value > 0:
+            raise ValueError("Radius must be greater than zero.")
         self._rescale(value / self.circumsphere_radius)
 
     @property
@@ -714,6 +718,8 @@ class Polyhedron(Shape3D):
 
     @insphere_radius.setter
     def insphere_radius(self, value):
+        if not value > 0:
+            raise ValueError("Radius must be greater than zero.")
         self._rescale(value / self.insphere_radius)
 
     def get_dihedral(self, a, b):
